@@ -303,7 +303,13 @@ Proof.
   assert (wcode w =? 0 = false) as E0 by (destruct w; reflexivity). rewrite E0.
   assert (Z.of_nat (max_len vals) =? 0 = false) as E1 by lia. rewrite E1. cbn [andb].
   assert (width_of_code (wcode w) = Some w) as Ew' by (destruct w; reflexivity). rewrite Ew'.
-  rewrite Nat2Z.id.
+  assert (forall s, In s vals -> (sample_len s <= max_len vals)%nat) as Hall
+    by (intros s Hs; apply (proj2 (fold_max_ge vals 0%nat)); exact Hs).
+  rewrite znat_id.
+  2:{ rewrite (flat_map_len_const _ (max_len vals * wbytes w)%nat).
+      - destruct vals as [|s0 vals']; [cbn in Hm1; lia|]. cbn [length]. destruct w; cbn [wbytes]; nia.
+      - intros s Hs. rewrite (flat_map_len_const (enc_int w) (wbytes w)) by (intros x _; apply enc_int_length).
+        rewrite sample_raws_length by (apply Hall; exact Hs). reflexivity. }
   rewrite <- (app_nil_r (flat_map _ vals)).
   rewrite series_roundtrip; [reflexivity| |].
   - intros s Hs vs n E Hn. subst s.
